@@ -489,28 +489,44 @@ pub fn run(ctx: &Ctx) -> Report {
     // (e) end to end: reference-signed requests over every list of <= 2 parameters, both carriers
     let e2e_lists = enumr::seq_count(k, 2);
     let base_e = base_d + 2000;
-    let st_e = par_sweep(e2e_lists * 2, |i, st| {
+    // x where the list is split between the URL and a folded form body (0 = all in the URL, no folding;
+    // 1 = the last pair in the body; 2 = all in the body)
+    let st_e = par_sweep(e2e_lists * 2 * 3, |i0, st| {
+        let split = (i0 % 3) as usize;
+        let i = i0 / 3;
         let l = list_of(i / 2, 2);
+        if split > l.len() {
+            return;
+        }
         // the signature parameter itself is C19's subject
         if l.iter().any(|(n, _)| NAMES[*n].0 == b"X-Amz-Signature") {
             return;
         }
         let carrier = if i % 2 == 0 { Carrier::Header } else { Carrier::Query };
         let mut plan = e2e::base_plan(carrier);
-        plan.url_params = logical(&l);
-        plan.wire_query = Some(default_spelling(&l));
+        let mut cfg = Cfg::basic(e2e::base_instant());
+        if split == 0 {
+            plan.url_params = logical(&l);
+            plan.wire_query = Some(default_spelling(&l));
+        } else {
+            let cut = l.len() - split;
+            plan.url_params = logical(&l[..cut]);
+            plan.wire_query = Some(default_spelling(&l[..cut]));
+            plan.method = "POST".into();
+            plan.body = default_spelling(&l[cut..]).into_bytes();
+            plan.body_params = Some(logical(&l[cut..]));
+            plan.headers.push(("Content-Type".into(), b"application/x-www-form-urlencoded".to_vec()));
+            plan.signed.push("content-type".into());
+            cfg.fold = true;
+        }
         let built = build(&plan);
-        let case = Case {
-            wire: WireReq::from_wire(&built.wire),
-            cfg: Cfg::basic(e2e::base_instant()),
-            prov: ProvSpec::standard(),
-        };
-        let j = e2e::judge_into(base_e + i, &case, st);
+        let case = Case { wire: WireReq::from_wire(&built.wire), cfg, prov: ProvSpec::standard() };
+        let j = e2e::judge_into(base_e + i0, &case, st);
         if !j.sut.is_ok() && j.disagreement.is_none() && !j.unspecified {
             // reference and implementation agree on refusal of a reference-signed request: harness bug
             machinery_error(&format!("reference refuses its own signature for {:?}", case.wire.uri));
         }
-        st.nontrivial(&(&case.wire.uri, "e2e"));
+        st.nontrivial(&(&case.wire.uri, &case.wire.body, "e2e"));
     });
     st = st.merge(st_e);
 
@@ -536,7 +552,7 @@ pub fn run(ctx: &Ctx) -> Report {
         v
     };
     let nh = hist.len() as u64;
-    let base_f = base_e + e2e_lists * 2;
+    let base_f = base_e + e2e_lists * 6;
     let st_f = par_sweep(nh * nh, |i, st| {
         let (x, y) = (&hist[(i / nh) as usize], &hist[(i % nh) as usize]);
         for (step, q) in [x, y].into_iter().enumerate() {
@@ -558,7 +574,7 @@ pub fn run(ctx: &Ctx) -> Report {
     Report {
         stats: st,
         rule: format!(
-            "(a) every ordered list of 0..={} parameters over {} names x {} values (all permutations included), compared with the reference canonical string computed from the logical multiset; (b) every list of <= {} parameters in every combination of {} per-element spellings (canonical, lower-case hex, needless escape, '+' for space, everything escaped) plus '&&'/leading/trailing '&' at every gap and omitted '='; (c) every byte 0..255 as %XX in both hex cases and every literal char < U+0800 in a name and in a value, every two-character escape over ASCII^2, malformed escapes at every position of three templates, '%' followed by multi-byte characters; 128 queries of 21..257 parameters over 1, 2, 3 or 8 repeated names in 4 arrival orders, each canonicalised 16 times through fresh maps; (d) iteration-order exhaustion of the crate's own HashMap for {} queries on worker and fresh OS threads, digests from {} fresh processes; (e) end-to-end acceptance of reference-signed requests for every list of <= 2 parameters on both carriers; (f) every ordered pair over 58 related query strings (prefixes / extensions, case, escape and separator variants, 100- and 70-parameter strings differing only at the end, malformed ones) evaluated back to back on one thread, each judged alone. states = distinct canonical strings; non-trivial = input differs from its canonical form",
+            "(a) every ordered list of 0..={} parameters over {} names x {} values (all permutations included), compared with the reference canonical string computed from the logical multiset; (b) every list of <= {} parameters in every combination of {} per-element spellings (canonical, lower-case hex, needless escape, '+' for space, everything escaped) plus '&&'/leading/trailing '&' at every gap and omitted '='; (c) every byte 0..255 as %XX in both hex cases and every literal char < U+0800 in a name and in a value, every two-character escape over ASCII^2, malformed escapes at every position of three templates, '%' followed by multi-byte characters; 128 queries of 21..257 parameters over 1, 2, 3 or 8 repeated names in 4 arrival orders, each canonicalised 16 times through fresh maps; (d) iteration-order exhaustion of the crate's own HashMap for {} queries on worker and fresh OS threads, digests from {} fresh processes; (e) end-to-end acceptance of reference-signed requests for every list of <= 2 parameters on both carriers, all in the URL and with the last / all pairs in a folded form body (the same pair may then stand in both places); (f) every ordered pair over 58 related query strings (prefixes / extensions, case, escape and separator variants, 100- and 70-parameter strings differing only at the end, malformed ones) evaluated back to back on one thread, each judged alone. states = distinct canonical strings; non-trivial = input differs from its canonical form",
             max_len, NAMES.len(), VALUES.len(), resp_len, NVARIANTS, order_queries.len(), nproc
         ),
         bounds: json!({"max_params": max_len, "respelled_params": resp_len, "names": NAMES.len(), "values": VALUES.len()}),
